@@ -85,11 +85,25 @@ def split_correspondence(ctx, n):
     return diffs
 
 
-def cli_vs_api(ctx, flags, src_text, mode='stdout'):
+# modules that are not plain UTF-8 (given as latin-1 text standing for the bytes): what the command line emits is still what
+# minify() returns for those bytes — the module's own encoding declaration and byte order mark are minify()'s business
+BYTE_SOURCES = [
+    b"# -*- coding: latin-1 -*-\nname = 'caf\xe9 \xfc\xdf'\nprint(name, name)\n",
+    b"#!/usr/bin/pyth\xf6n\n# -*- coding: latin-1 -*-\nvalue = 'abc'\nprint(value)\n",
+    b"\xef\xbb\xbf#!/usr/bin/env python\nvalue  =  1\nprint(value)\n",
+    b"\xef\xbb\xbfvalue  =  '\xc3\xa9'\nprint(value)\n",
+    b"# coding: iso-8859-15\n#!/not/a/shebang\ncost = '\xa4 5'\nprint(cost)\n",
+    b"#!/bin/sh \xa4\n# vim: set fileencoding=iso-8859-15 :\ncost = '\xa4'  # euro\nprint(cost)\n",
+    b"# -*- coding: cp1252 -*-\nquote = '\x93x\x94'\nprint(quote)\n",
+    b"# -*- coding: latin-1 -*-\nodd = '\xc3\xa9'\nprint(odd)\n",          # also valid UTF-8, with another meaning
+]
+
+
+def cli_vs_api(ctx, flags, src_text, mode='stdout', raw=False):
     """Oracle on the real code: bytes emitted by the CLI == utf-8 of minify(documented kwargs), subject
     to the size rule. Returns a violation dict or None."""
     import python_minifier
-    src = src_text.encode('utf-8')
+    src = src_text.encode('latin-1' if raw else 'utf-8')
     with cc.Scratch() as d:
         with open(os.path.join(d, 'm.py'), 'wb') as f:
             f.write(src)
@@ -113,7 +127,7 @@ def cli_vs_api(ctx, flags, src_text, mode='stdout'):
     if cc.invalid_flags(flags):
         if r['exit'] == 0 or (mode in ('stdout', 'stdin') and got) or (mode in ('output', 'stdin-output') and got is not None) or (
                 mode == 'inplace' and got != src):
-            return {'input': {'flags': list(flags), 'source': src_text, 'mode': mode},
+            return {'input': {'flags': list(flags), 'source': src_text, 'mode': mode, 'raw': raw},
                     'what': 'invalid flag combination not rejected before writing', 'observed': {'exit': r['exit']},
                     'found_by': 'enumeration', 'oracle': 'cli_vs_api'}
         return None
@@ -130,7 +144,7 @@ def cli_vs_api(ctx, flags, src_text, mode='stdout'):
         expect = api if len(api) <= len(src) else src
         ok = (got == expect and r['exit'] == 0)
     if not ok:
-        return {'input': {'flags': list(flags), 'source': src_text, 'mode': mode},
+        return {'input': {'flags': list(flags), 'source': src_text, 'mode': mode, 'raw': raw},
                 'what': 'CLI bytes differ from utf-8(API result) under the size rule',
                 'expected': repr(expect)[:400], 'observed': repr(got)[:400] + ' exit=%r exc=%r' % (r['exit'], r['exc']),
                 'found_by': 'enumeration', 'oracle': 'cli_vs_api'}
@@ -168,6 +182,15 @@ def boundary_matrix(ctx):
             ctx.mark_nontrivial('bm:%d:%s' % (si, mode))
             if v:
                 ctx.add_violation(v)
+    for si, data in enumerate(BYTE_SOURCES):
+        for mode in ['stdout', 'stdin', 'output', 'inplace', 'stdin-output']:
+            for flags in ((), ('--no-preserve-shebang',)):
+                v = cli_vs_api(ctx, flags, data.decode('latin-1'), mode, raw=True)
+                ctx.count()
+                ctx.bump('cli_vs_api_mode', 'encoded:' + mode)
+                ctx.mark_nontrivial('bytes:%d:%s:%r' % (si, mode, flags))
+                if v:
+                    ctx.add_violation(v)
     bad = ['--remove-class-attribute-annotations', '--no-remove-annotations']
     for order in (bad, bad[::-1], [bad[0], '--no-hoist-literals', bad[1]], [bad[1], '--rename-globals', bad[0]], ['--no-remove-pass'] + bad[::-1]):
         for mode in ['stdout', 'output', 'inplace', 'stdin']:
@@ -210,7 +233,7 @@ def search(ctx):
 def replay(ctx, data):
     inp = data.get('input') or {}
     if data.get('oracle') == 'cli_vs_api':
-        return cli_vs_api(ctx, tuple(inp['flags']), inp['source'], inp['mode']) is not None
+        return cli_vs_api(ctx, tuple(inp['flags']), inp['source'], inp['mode'], raw=bool(inp.get('raw'))) is not None
     if data.get('oracle') == 'scenario':
         sc = {'files': dict((k, v.encode('latin-1')) for k, v in inp['files'].items()), 'args': inp['args'],
               'stdin': inp['stdin'].encode('latin-1'), 'force': inp['force'],
